@@ -121,10 +121,17 @@ def native_replay(inst, rspec, inputs, instance, scratch):
     info = {"ran": False}
     try:
         gen_config_h(os.path.join(d, "inc"))
+        with open(os.path.join(d, "inc", "soplex", "git_hash.cpp"), "w") as f:   # generated by the build, not tracked
+            f.write('#define SPX_GITHASH "verif-replay"\n')
         with open(os.path.join(d, "inputs.txt"), "w") as f:
             for k, v in inputs.items():
                 f.write("%s %s\n" % (k, v))
-        srcs = [os.path.join(inst["_dir"], rspec["cpp"])] + [os.path.join(REPO, s) for s in rspec.get("extra_src", [])]
+        # "LIB" = the non-template translation units of the library, compiled from the CURRENT tree (not /repo/_build)
+        libset = ["src/soplex/%s.cpp" % n for n in ("didxset", "idxset", "mpsinput", "nameset", "spxdefines", "spxgithash", "spxid", "spxout", "usertimer", "wallclocktimer")]
+        extra = []
+        for s in rspec.get("extra_src", []):
+            extra += libset if s == "LIB" else [s]
+        srcs = [os.path.join(inst["_dir"], rspec["cpp"])] + [os.path.join(REPO, s) for s in extra]
         cmd = ["g++", "-std=c++14", "-g", "-O0", "-DREPLAY_NATIVE", "-DREPLAY_INSTANCE_%s" % instance,
                "-I", os.path.join(d, "inc"), "-I", os.path.join(REPO, "src"), "-I", os.path.join(VERIF, "stubs", "native"), "-I", inst["_dir"]]
         if rspec.get("asan", True):
